@@ -38,11 +38,11 @@ CHECKS["C13"] = {
             "destroy+re-create sandbox; 1-2 sandboxes, 2-3 functions, 2-3 owners, 1-2 entry points) completely, checks "
             "Model => Contract and that the code's key list and slot table equal the Contract's registered set; every "
             "edge is replayed on real sandbox_callback objects in harness-managed storage on the foreign-ABI vm backend "
-            "and the bundled no-op backend, reachability being probed by calling every entry point ever handed out in "
-            "a forked child; TLC validates every recorded call (result + owner projection) against the Contract; "
+            "and the bundled no-op and dylib backends, reachability being probed after EVERY step by calling every entry "
+            "point ever handed out in a forked child; TLC validates every recorded call (result + owner projection) against the Contract; "
             "capacity histories (2 and 64 entry points) and random histories are validated the same way.",
-    "note": "Bounded models; reachability is observed through forked probe calls; dylib backend's identical slot code "
-            "is exercised by C12. Trusted: TLC, harness/sbx_driver.cpp, vm backend, g++ 12.",
+    "note": "Bounded models; reachability is observed through forked probe calls. Trusted: TLC, harness/sbx_driver.cpp, "
+            "guestlib.c, vm backend, g++ 12.",
 }
 CHECKS["C14"] = {
     "technique": "TLA+ Contract/Model (SbxContract/Sbx), TLC complete bounded state space, every edge replayed on up "
@@ -67,8 +67,9 @@ CHECKS["C12"] = {
             "rlbox_sandbox objects on three backends and both TLS configurations after several register/unregister "
             "histories, and TLC validates every recorded crossing: the callback that ran is the one registered behind "
             "the entry called, it received the executing sandbox, ran exactly once, arguments/results intact.",
-    "note": "Bounded tree shapes; argument fidelity limited to long-typed parameters here (see C11). Trusted: TLC, "
-            "harness/tree_driver.cpp, guestlib.c, vm backend, g++ 12.",
+    "note": "Bounded tree shapes; argument/result fidelity of every other parameter kind through a callback signature "
+            "family (17 signatures x 3 guest ABIs, Invoke.tla CbAllowed). Trusted: TLC, harness/tree_driver.cpp, "
+            "sig_driver.cpp, guestlib.c, vm backend, g++ 12.",
 }
 CHECKS["C19"] = {
     "technique": "TLA+ Contract/Model (CallsContract/Calls): grammar of transition notifications as a stack machine; "
@@ -110,7 +111,7 @@ CHECKS["C05"] = {
             "swept on a foreign-ABI sandbox for 11 pointee kinds (guest stride differs from the host's), first/last/interior/"
             "null bases, all operand types plain/tainted/tainted_volatile - 8/16-bit operands exhaustively, wider ones at "
             "boundary and wrap-prone values - and every run is judged by TLC in exact arithmetic.",
-    "note": "32/64-bit operands not exhaustive; strides come from the harness' own table of wasm32 sizes. Trusted: TLC, "
+    "note": "32/64-bit operands not exhaustive; strides come from the harness' own tables of the three guest ABIs (wasm32, lp16, lp64u). Trusted: TLC, "
             "harness/ptr_driver.cpp, vm backend, g++ 12.",
 }
 CHECKS["C17"] = {
@@ -161,7 +162,7 @@ CHECKS["C04"] = {
             "copy and the representation written must be the offset (0 for null); every representation below 2^16 (2^20) "
             "plus boundary/random ones is read back through 12 positions with three live sandboxes and must yield null for "
             "0 and the same offset inside the own sandbox otherwise; both translation paths (sandbox context, example "
-            "address via mask or via the live-sandbox list) and two ABIs; TLC enumerates every create/destroy order of three "
+            "address via mask or via the live-sandbox list) and three guest ABIs (wasm32, lp16, lp64u); TLC enumerates every create/destroy order of three "
             "sandboxes and pointer round trips are replayed in every live sandbox of every registry state.",
     "note": "4 GiB geometry is not instantiated (representations above the region size are reduced by the backend). Trusted: "
             "TLC, harness/mem_driver.cpp, sbx_driver.cpp, vm backend, g++ 12.",
@@ -202,8 +203,8 @@ CHECKS["C08"] = {
                  "its transitions; Contracts LayoutAllowed/SStoreAllowed/SLoadAllowed evaluated by TLC on recorded images",
     "text": "TLC explores the layout state machine (offset mod 8, maximal alignment) x 20 field kinds (every integer "
             "width/signedness, bool, enum, float/double, object pointer, function pointer, char/int/long/pointer arrays, "
-            "nested struct) and emits all 640 transitions; a generator turns covering walks into a struct family (232 "
-            "structs; 12 in the quick tier) with RLBox reflection macros; for every struct the driver records the offsets, "
+            "nested struct) and emits all 640 transitions; a generator turns covering walks into a struct family per guest ABI "
+            "(wasm32 232, lp64u 264, lp16 162 structs; 12 + 6 + 6 in the quick tier) with RLBox reflection macros; for every struct the driver records the offsets, "
             "size and alignment RLBox uses, the sandbox image after whole-struct stores and by-value arguments, and the field "
             "values after loads and by-value results, with distinguishable values per slot and boundary/non-representable "
             "values one slot at a time; TLC recomputes the ABI layout and checks every slot of every image.",
